@@ -152,6 +152,12 @@ static void run_case(const std::string &id, const std::vector<Op> &ops)
 		classes += (classes.empty() ? "" : ",") + std::string(is_load ? (ci.failed ? "load_fail" : "load_ok") : ci.cls);
 		g_cnt[std::string("class_") + (is_load ? (ci.failed ? "load_fail" : "load_ok") : ci.cls)]++;
 		if (!is_load && ci.reached && ci.keyword && count_nonblank_lines(pl.data(), pl.size()) >= 2) nt = true;
+		if (ci.failed && known_state_unnumbered(I)) {
+			g_cnt["skipped_known_unnumbered_solutions_survive_reload"]++;
+			printf("RES %s skipped known=unnumbered_solutions_survive_reload\n", id.c_str());
+			fflush(stdout);
+			return;      // the next case starts with a new instance
+		}
 		if (ci.failed) {
 			reload_and_probe(I, what.c_str(), h);
 			load_small(I, "after the probe");
